@@ -51,6 +51,11 @@ TABLE = {
             'f(x,d)=0 at the central values, the implicit-function rule f_x dx + f_d dd = 0 for every fluctuation and gradient, equality with the directly applied inverse (invertible '
             'families) and, for quad, equality of value and all fluctuations with the one-shot propagation of F(p,b)-F(p,a) are proven for all sample values.',
             'Real-number semantics; fsolve / QUADPACK replaced by their contracts; function families enumerated.'),
+    'C07': (True, 'symbolic execution of the real least_squares body behind minimiser / linear-solve contracts; decomposed SMT obligations (function minimised = documented chi-square; H = 2 A^T W A; M = -2 A^T W; parameter fluctuations = -X d(data))',
+            'For linear models with symbolic y samples, symbolic errors, symbolic priors and a symbolic inverse Cholesky factor: the function handed to the minimiser is the documented chi-square at an arbitrary point, '
+            'the matrices handed to scipy.linalg.solve are the GLS normal matrix and right-hand side, and every fluctuation / gradient of every parameter is -X times the (embedded) data fluctuation; '
+            'together with the contracts this is the GLS estimator in value and every fluctuation; chisquare, dof and p-value arguments are decided as well.',
+            'Minimisers and LAPACK replaced by contracts (stationary point; A X = B); estimated correlation matrices and expected_chisquare outside; the final linear-algebra step (H X = M => GLS) is an argument, not a query.'),
 }
 
 NOT_YET = 'check not built yet in this session (work in progress; see DESIGN.md section 4 for the plan)'
